@@ -13,6 +13,7 @@
   const BigIntToString = typeof BigInt === 'function' ? BigInt.prototype.toString : null;
   const SymbolDesc = getDesc(Symbol.prototype, 'description').get;
   const objIs = Object.is;
+  const ErrorCtor = Error;
   const errProtos = [];
   const errNames = ['TypeError', 'RangeError', 'ReferenceError', 'SyntaxError', 'EvalError', 'URIError', 'AggregateError', 'Error'];
   for (let i = 0; i < errNames.length; i++) {
@@ -93,7 +94,12 @@
     }
     emit(s);
   }
+  let ticks = 0;
+  function __tick() {
+    if (++ticks > 3000) throw new ErrorCtor('fuel');
+  }
   const def = Reflect.defineProperty;
+  def(global, '__tick', { value: __tick, writable: false, enumerable: false, configurable: false });
   def(global, '__show', { value: __show, writable: false, enumerable: false, configurable: false });
   def(global, 'print', { value: print, writable: true, enumerable: false, configurable: true });
 })(globalThis);
